@@ -26,6 +26,8 @@ func init() {
 func runC08(w *World, r *Report) {
 	hrCleanAll(w, r, "R2")
 	hrNotifyHubInBackground(w, r, "R4")
+	hrMetricsPathIsTheConfiguredFile(w, r, "R2")
+	hrKnownEndpointsAlwaysWritten(w, r, "R3")
 	hrBackupChecksumKeys(w, r, "R2")
 	// an endpoint configured again is not un-managed by an older reload's delayed job (C14.R5)
 	r.Borrow(w, c14DelayedUnmanage, map[string]string{"R5": "R4"})
